@@ -10,6 +10,7 @@ import sys
 import tempfile
 import threading
 import time
+import zlib
 
 VERIF = os.path.dirname(os.path.dirname(os.path.abspath(__file__)))
 REPO = "/repo"
@@ -153,7 +154,7 @@ class Result:
 
 def classify_death(rc, stderr_tail):
     """Maps a worker death to (kind, text). Resource outcomes are not violations."""
-    text = stderr_tail[-2000:]
+    text = stderr_tail
     if "memory allocation of" in text and "failed" in text:
         return "resource", "allocation failure abort"
     if "AddressSanitizer" in text:
@@ -263,7 +264,13 @@ def run_engine(binary, engine, count, seed, opts=None, nshards=None, env_extra=N
                 return
             # worker died
             with open(os.path.join(run_dir, f"stderr-{shard}.txt"), "rb") as f:
-                tail = f.read()[-6000:].decode("utf-8", "replace")
+                whole = f.read()
+            # sanitizer reports are long (shadow dump): keep the head of the last report too
+            k = whole.rfind(b"ERROR: AddressSanitizer")
+            if k >= 0:
+                tail = whole[k:k + 6000].decode("utf-8", "replace")
+            else:
+                tail = whole[-6000:].decode("utf-8", "replace")
             with lock:
                 res.crashes += 1
             if last_begin is None:
@@ -283,7 +290,7 @@ def run_engine(binary, engine, count, seed, opts=None, nshards=None, env_extra=N
                     with lock:
                         res.inconclusive.append({"idx": last_begin, "why": text, "detail": {}})
                 else:
-                    sig = asan_signature(text) if kind == "asan" else f"crash|{kind}|" + _first_panic_line(text)
+                    sig = asan_signature(text) if kind == "asan" else f"crash|{kind}|" + _first_panic_line(text[-2000:])
                     with lock:
                         res.failures.append({"idx": last_begin, "sig": sig, "detail": {"death": kind, "stderr": text[-1500:]},
                                              "replay": {"engine": engine, "seed": seed, "idx": last_begin, "opts": opts}, "build": build_name})
@@ -364,7 +371,7 @@ def finish(prop, tier, seed, level, res, rule, assumptions, min_nontrivial=2, ex
         violations += 1
         recs.sort(key=lambda r: len(json.dumps(r.get("replay", {}))))
         rec = recs[0]
-        name = "".join(c if c.isalnum() else "_" for c in sig)[:80]
+        name = "".join(c if c.isalnum() else "_" for c in sig)[:70] + "_%08x" % (zlib.crc32(sig.encode()) & 0xffffffff)
         path = os.path.join(REPLAYS, prop, f"{name}.json")
         with open(path, "w") as f:
             json.dump({"property": prop, "signature": sig, "count": len(recs), "tier": tier, "seed": seed, **rec}, f, indent=1, ensure_ascii=False)
